@@ -505,8 +505,15 @@ class SymPattern:
         if op is sre_c.ASSERT or op is sre_c.ASSERT_NOT:
             direction, sub = av
             if direction != 1:
-                raise EngineError("look-behind")
-            r = self._m(list(sub), 0, s, p, g, lambda p2, g2: (p2, g2))
+                # look-behind: `re` only admits fixed-width sub-patterns; the sub-pattern must match s[p-w:p] exactly
+                lo, hi = sub.getwidth()
+                if lo != hi:
+                    raise EngineError("variable-width look-behind")
+                r = None
+                if p - lo >= 0:
+                    r = self._m(list(sub), 0, s, p - lo, g, lambda p2, g2: (p2, g2) if p2 == p else None)
+            else:
+                r = self._m(list(sub), 0, s, p, g, lambda p2, g2: (p2, g2))
             if op is sre_c.ASSERT:
                 if r is None:
                     return None
